@@ -14,7 +14,7 @@ Definition triple_ok (B l b s : Z) : bool :=
   (0 <=? l) && (0 <=? b) && (l <? two63) && (b <? two63) && (l + b <=? s * B).
 Definition row_ok (B : Z) (r : list Z) : bool :=
   let st := nthz r 0 in
-  (0 <=? st) && (st <=? 7) &&
+  (0 <=? st) && (st <=? 8) &&
   (negb (st =? 0) ||
    (triple_ok B (nthz r 1) (nthz r 2) (nthz r 3) &&
     (negb (Nat.eqb (length r) 7) || triple_ok B (nthz r 4) (nthz r 5) (nthz r 6)))).
